@@ -241,7 +241,8 @@ func RunSchedules(c *Ctx, scs []*SScenario, plan SPlan, rep *Report) {
 			}
 			p.st.info[boundName(b)] = map[string]any{"executions": st.Executions, "states": st.States, "transitions": st.Transitions, "pruned": st.Pruned,
 				"max_choice_depth": st.MaxDepth, "max_points": st.MaxPoints, "distinct_outcomes": len(st.Outcomes), "complete": st.Complete,
-				"violating_executions": st.NViolations, "horizon_hits": st.Horizons, "points_per_thread_max": st.PerThreadMax, "race_build": p.race}
+				"violating_executions": st.NViolations, "horizon_hits": st.Horizons, "points_per_thread_max": st.PerThreadMax, "race_build": p.race,
+				"pruning_cache_capped": st.CacheCapped, "pruning_cache_dropped": st.CacheDropped, "stopped_by_memory_limit": st.MemStop}
 			total.Merge(st)
 			if st.Complete {
 				p.st.completed = boundName(b)
